@@ -116,7 +116,11 @@ func HarnessC16(m, withNil, withBase int) {
 	// carries nil values (ignored) at a symbolic position; it is always the first default
 	wPay := vnPayload("w")
 	var wOpt Arg
-	switch hPick("wnil", 4) {
+	wk := 0
+	if withBase == 1 {
+		wk = hPick("wnil", 4) // the nil positions are explored in the base-default shards
+	}
+	switch wk {
 	case 0:
 		wOpt = Typed(hP3{wPay})
 	case 1:
